@@ -330,6 +330,52 @@ def run(ctx):
         written = F[case[0]][2]
         if written is not None and case[2] == 'first' and case[1] in ('pass', 'mismatch', 'expected_exception'):
             pass
+    # ---- the same DocTest object run again after sys.stdout legitimately changed in between (a finished redirection):
+    # after the second run sys.stdout is the object found before THAT run
+    import contextlib as _cl
+    from xdoctest import doctest_example as _de
+    for ending in ('pass', 'mismatch', 'exception', 'expected_exception'):
+        for oe in ('return', 'raise'):
+            for vb in (0, 3):
+                esrc, ewant = ENDINGS[ending]
+                ex = _de.DocTest(docsrc='\n'.join([">>> print('hello')", 'hello'] + esrc + ewant), lineno=1)
+                ctx.evaluations += 1
+                sink = io.StringIO()
+                with _cl.redirect_stdout(sink):
+                    try:
+                        ex.run(on_error=oe, verbose=vb)
+                    except BaseException:      # noqa
+                        pass
+                before = snapshot()
+                buf2 = io.StringIO()
+                try:
+                    with _cl.redirect_stderr(io.StringIO()):
+                        if vb:
+                            with _cl.redirect_stdout(buf2):
+                                inner_before = sys.stdout
+                                try:
+                                    ex.run(on_error=oe, verbose=vb)
+                                except BaseException:      # noqa
+                                    pass
+                                inner_ok = sys.stdout is inner_before
+                        else:
+                            inner_before = sys.stdout
+                            try:
+                                ex.run(on_error=oe, verbose=vb)
+                            except BaseException:      # noqa
+                                pass
+                            inner_ok = sys.stdout is inner_before
+                finally:
+                    pass
+                after = snapshot()
+                problems = compare(before, after)
+                if not inner_ok:
+                    problems.append('after the second run of the same DocTest sys.stdout is %r, not the object found before that run' % type(sys.stdout).__name__)
+                sys.stdout, sys.stderr = before['stdout'], before['stderr']
+                if problems and nm < 8:
+                    nm += 1
+                    ctx.violation('not-restored', {'what': 'second run of the same DocTest object: ' + '; '.join(problems), 'doctest': ex.docsrc, 'on_error': oe,
+                                  'outcome': 'rerun', 'theorem_or_correspondence': 'C12_run_restores on a re-used DocTest'}, True)
     # model side of the capture bookkeeping on abstract bodies
     rng = ctx.rng('bodies')
     reqs = []
